@@ -1,5 +1,5 @@
 \* buffered refactoring: capacity 2, 3 features x 2 targets, 2 tables
 CONSTANTS N = 3  Targets = {1, 2}  Cap = 2  NT = 2  NChoices = {1, 3}  TgChoices = {{1, 2}}
 SPECIFICATION Spec
-INVARIANTS TypeOK C10_Prefix C10_AtReturn C11_ReturnAfterDone C11_WriterTable NoSendOnClosed
-PROPERTIES C11_TableStable C11_Terminates
+INVARIANTS TypeOK C10_Prefix C10_AtReturn C11_ReturnAfterDone C11_WriterTable NoSendOnClosed IntInvHolds
+PROPERTIES C11_TableStable C11_Terminates RefinesInt
